@@ -345,7 +345,7 @@ func body(w *runner.W) {
 					if other == size {
 						other = chunk + 2
 					}
-					for _, rd := range []string{"bytes", "file"} {
+					for _, rd := range []string{"bytes", "bytes-shared", "file"} {
 						lru.Do(LruCase{Chunk: chunk, Entries: entries, Size: size, OtherSize: other, Reader: rd})
 					}
 				}
